@@ -198,6 +198,20 @@ def d4(cx: Cx, ob: Ob) -> None:
         recs = ctor[0][2][0] if ctor[0][2] else dict(ctor[0][3]).get("records")
         ob.site(f"{where(fn, ctx.path.out[2])} {fn.qualname}", f"return Converter({show(recs)[:60]})")
         parts = recs[1] if op(recs) in ("list", "tuple") else None
+        if parts is None and op(recs) == "bin" and recs[1] == "+":
+            flat = []
+            stack = [recs]
+            while stack:
+                x = stack.pop()
+                if op(x) == "bin" and x[1] == "+":
+                    stack.extend([x[3], x[2]])
+                elif op(x) == "call" and op(x[1]) == "builtin" and x[1][1] in ("list", "tuple") and len(x[2]) == 1:
+                    flat.append(("star", x[2][0]))
+                elif op(x) in ("list", "tuple"):
+                    flat.extend(x[1])
+                else:
+                    flat.append(("star", x))
+            parts = tuple(flat)
         if parts is None:
             ob.undecide(f"result record list `{show(recs)[:60]}` not recognised")
             continue
